@@ -602,12 +602,12 @@ fn run_real(inst: &Inst, on_hang: impl FnOnce()) -> Outcome {
         Caught::Panic(m) => Outcome::Panic(m),
         Caught::Hang => Outcome::Hang,
     };
-    match rx.recv_timeout(Duration::from_secs(10)) {
-        Ok(r) => conv(r),
-        Err(_) => {
+    match recv_patient(&rx, 30) {
+        Some(r) => conv(r),
+        None => {
             on_hang();
-            match rx.recv_timeout(Duration::from_secs(5)) {
-                Ok(Caught::Panic(m)) => Outcome::Panic(m),
+            match recv_patient(&rx, 5) {
+                Some(Caught::Panic(m)) => Outcome::Panic(m),
                 _ => Outcome::Hang,
             }
         }
